@@ -7,7 +7,7 @@ import sys
 ROOT = os.path.abspath(os.path.join(os.path.dirname(__file__), ".."))
 sys.path.insert(0, ROOT)
 sys.path.insert(0, os.path.join(ROOT, "tools"))
-from units import spirv_enums, tables, kani_masks  # noqa: E402
+from units import spirv_enums, tables, kani_masks, lift_caps  # noqa: E402
 os.makedirs(os.path.join(ROOT, "oracle"), exist_ok=True)
 with open(os.path.join(ROOT, "oracle", "enum_snapshot.json"), "w") as f:
     json.dump(spirv_enums.snapshot_now(), f, indent=0, sort_keys=True)
@@ -15,4 +15,6 @@ with open(os.path.join(ROOT, "oracle", "grammar_snapshot.json"), "w") as f:
     json.dump(tables.snapshot_now(), f, indent=0, sort_keys=True)
 with open(os.path.join(ROOT, "oracle", "mask_snapshot.json"), "w") as f:
     json.dump(kani_masks.snapshot_now(), f, indent=0, sort_keys=True)
+with open(os.path.join(ROOT, "oracle", "reflect_caps_snapshot.json"), "w") as f:
+    json.dump(lift_caps.snapshot_now(), f, indent=0, sort_keys=True)
 print("frozen")
